@@ -47,6 +47,15 @@ Theorem C14_lex_locations :
 Proof. exact lex_locations. Qed.
 Print Assumptions C14_lex_locations.
 
+(* (6) ... and the same when the character source fails after the input (a byte that is not UTF-8, an I/O error):
+       every item, the read error included, is located at a character of the input or at the one that could
+       not be read (Props/C17.v pins the read error to exactly that one). *)
+Theorem C14_lex_fault_locations :
+  forall dirs ops regs flags u_alnum u_ws input it,
+    In it (lex_fault dirs ops regs flags u_alnum u_ws input) -> Reach input (item_loc it).
+Proof. exact lex_fault_locations. Qed.
+Print Assumptions C14_lex_fault_locations.
+
 (* non-vacuity: "nop" / line break / " @db" -- the directive is at 2:2, the first line break at 1:4 *)
 Example C14_example :
   pos_after ([110; 111; 112; 10; 32] ++ [64]) = {| line := 2; col := 2 |} /\
